@@ -315,7 +315,7 @@ func c04Generate(rng *rand.Rand) c04Prog {
 
 func checkC04(c *Ctx) error {
 	r := c.R
-	r.Rule = "generated programs over [N]T (N 2-6, all integer element widths) whose index is a literal, a const, a let-bound variable reassigned between uses, assigned in one branch / match arm, loop-carried, incremented, modified through &' or by a closure, computed by index arithmetic or returned by a function, uses at points where no sound analysis knows the index; plus a directed matrix {25 containers that modify the index (also: assignment in one branch and the use in the sibling branch or a later match arm): plain, if/else/else-if, match arm/default, block, &' call, catch handler, closure, inner loops, compound, ++, nestings, assignment in one branch while the other branch leaves by continue/break/return} x {7 use positions: none besides the container's own, after, loop-carried before/after in while/for, in a later branch, in a later closure} x {modification taken, not taken} x {index known / unknown before the container}; canary locals around the array; reference interpreter with dynamic index semantics. Allowed: compile-time rejection with T0028/T0009 (never for literal/const in-range programs), or output == reference, or a panic exactly where the reference panics. non-trivial = a distinct program whose verdict was decided (accepted-and-equal, or rejected for the permitted reason)"
+	r.Rule = "generated programs over [N]T (N 2-6, all integer element widths) whose index is a literal, a const, a let-bound variable reassigned between uses, assigned in one branch / match arm, loop-carried, incremented, modified through &' or by a closure, computed by index arithmetic or returned by a function, uses at points where no sound analysis knows the index; plus a directed matrix {28 containers that modify (or merely negate) the index (also: assignment in one branch and the use in the sibling branch or a later match arm): plain, if/else/else-if, match arm/default, block, &' call, catch handler, closure, inner loops, compound, ++, nestings, assignment in one branch while the other branch leaves by continue/break/return} x {7 use positions: none besides the container's own, after, loop-carried before/after in while/for, in a later branch, in a later closure} x {modification taken, not taken} x {index known / unknown before the container}; canary locals around the array; reference interpreter with dynamic index semantics. Allowed: compile-time rejection with T0028/T0009 (never for literal/const in-range programs), or output == reference, or a panic exactly where the reference panics. non-trivial = a distinct program whose verdict was decided (accepted-and-equal, or rejected for the permitted reason)"
 	r.Assumptions = []string{"a rejection is attributed to the array rule only if every error diagnostic is T0028 or T0009"}
 	n := c.N(60, 1500)
 	runProbes(c, "C04", core.Native)
@@ -392,7 +392,7 @@ func checkC04(c *Ctx) error {
 }
 
 // c04Containers are the syntactic places in which the index variable is modified.
-var c04Containers = []string{"plain", "if-then", "if-else", "else-if", "match-arm", "match-default", "block", "mutref-call", "catch-handler", "closure", "inner-while", "inner-for", "compound", "incdec", "match-in-if", "if-in-match", "if-assign-else-jump", "if-jump-else-assign", "match-assign-default-jump", "match-jump-default-assign", "if-assign-else-use", "if-use-else-assign", "arm-assign-later-arm-use", "arm-assign-default-use", "else-if-assign-else-use"}
+var c04Containers = []string{"plain", "if-then", "if-else", "else-if", "match-arm", "match-default", "block", "mutref-call", "catch-handler", "closure", "inner-while", "inner-for", "compound", "incdec", "match-in-if", "if-in-match", "if-assign-else-jump", "if-jump-else-assign", "match-assign-default-jump", "match-jump-default-assign", "if-assign-else-use", "if-use-else-assign", "arm-assign-later-arm-use", "arm-assign-default-use", "else-if-assign-else-use", "unary-minus-in-index", "unary-minus-in-let", "unary-minus-in-call"}
 
 // c04Wrappers are the positions of the use relative to the modification.
 var c04Wrappers = []string{"no-later-use", "straight-use-after", "while-use-before", "for-use-before", "while-use-after", "use-in-branch-after", "use-in-closure-after"}
@@ -510,6 +510,12 @@ func c04MatrixProgram(container, wrapper string, selVal int64, variant int, opaq
 		mod = []gen.Stmt{&gen.Match{Subj: sel, HasDef: true, Arms: []gen.MatchArm{{Pat: lit(I32, 0), Body: []gen.Stmt{set()}}}, Default: readAt(i)}}
 	case "else-if-assign-else-use":
 		mod = []gen.Stmt{&gen.If{Cond: selIs(1), Then: []gen.Stmt{&gen.Print{X: sel}}, Else: []gen.Stmt{&gen.If{Cond: selIs(0), Then: []gen.Stmt{set()}, Else: readAt(i)}}}}
+	case "unary-minus-in-index": // no modification at all: the index variable is only negated inside another index expression
+		mod = readAt(&gen.Bin{Op: "-", L: &gen.Un{Op: "-", X: i}, R: lit(I32, 1), T: I32})
+	case "unary-minus-in-let":
+		mod = []gen.Stmt{&gen.Let{Name: "negi", T: I32, Init: &gen.Un{Op: "-", X: i}, Annot: true}, &gen.Print{X: &gen.Var{Name: "negi", T: I32}}}
+	case "unary-minus-in-call":
+		mod = []gen.Stmt{&gen.Let{Name: "negc", T: I32, Init: &gen.Call{Fn: opq, Args: []gen.Expr{&gen.Un{Op: "-", X: i}}}, Annot: true}, &gen.Print{X: &gen.Var{Name: "negc", T: I32}}}
 	case "if-in-match":
 		mod = []gen.Stmt{&gen.Match{Subj: sel, HasDef: true, Arms: []gen.MatchArm{{Pat: lit(I32, 0), Body: []gen.Stmt{&gen.If{Cond: selIs(0), Then: []gen.Stmt{set()}}}}}, Default: []gen.Stmt{}}}
 	}
